@@ -5,14 +5,17 @@
    jedi, each judged against the Reference operators of Nesting.tla:
      ctx    get_context(l, c)            -> got = table row of the answer (0 module, 9999 unknown)
      dchain parent() chain of definition `row`           -> got = rows, innermost first
-     nchain parent() chain of a variable/parameter name  -> got = rows (own = function of a parameter)
+     nchain parent() chain of a name (definition or reference; from get_names, goto or infer)
+            -> got = rows (own = function of a parameter); 10000 + k = the k-th lambda of the
+            file (lams), 9998 = a parent() result that is not a usable Name (.name/.type/.line raise).
+            Comprehensions and lambdas are transparent; an enclosing lambda may be visited.
      full   full_name of definition `row`                -> got = <<>> (None) or <<code points>>
             (mods = the dotted paths under which the file is importable given the sys.path
              the Script works with; any of them counts as "the module's import path")
    Every failing event is reported (<<"REJECT", tid, l, why>>); ACCEPT only if none failed. *)
 EXTENDS Naturals, Sequences, FiniteSets, TLC, Json, IOUtils
 
-CONSTANTS MaxItems, MaxDepth, MaxScopes, MaxExtras, Units, EmitMod, EmitRem, Fixed
+CONSTANTS MaxItems, MaxDepth, MaxScopes, MaxExtras, Units, EmitMod, EmitRem, Fixed, MaxNest, NestKinds, Plain
 VARIABLES prog, unit
 INSTANCE Nesting
 
@@ -26,7 +29,9 @@ Ev == Traces[tid][l]
 EvOK(tab, mod, ev) ==
   CASE ev.k = "ctx"    -> ev.got \in Allowed(tab, <<ev.l, ev.c>>)
     [] ev.k = "dchain" -> ev.got = RefChain(tab, ev.row)
-    [] ev.k = "nchain" -> ev.got = RefNameChain(tab, <<ev.l, ev.c>>, ev.own)
+    [] ev.k = "nchain" -> NameChainOK(tab, Traces[tid][1].lams, <<ev.l, ev.c>>, ev.own, ev.got)
+    \* oracle event: the chain of def/class nodes of the ast around the name == the Reference
+    [] ev.k = "achain" -> ev.got = RefNameChain(tab, <<ev.l, ev.c>>, ev.own)
     [] ev.k = "full"   -> (FullJudged(tab, ev.row) =>
                              \E m \in 1..Len(mod) : ev.got = <<RefFull(tab, mod[m], ev.row)>>)
     [] OTHER -> FALSE
@@ -35,7 +40,15 @@ Why(tab, mod, ev) ==
                          Shape(tab, Traces[tid][1].lams, <<ev.l, ev.c>>, ev.got), RefCtx(tab, <<ev.l, ev.c>>)>>
     \* (kept short: TLC wraps long values over several lines)
     [] ev.k = "dchain" -> <<"parent-chain", "def", Len(RefChain(tab, ev.row))>>
-    [] ev.k = "nchain" -> <<"parent-chain", "name", Len(RefNameChain(tab, <<ev.l, ev.c>>, ev.own))>>
+    \* shape code: UN unusable Name on the way, LC lambda-in-class, AH anon-in-header, OT other; then the number of
+    \* comprehensions / lambdas around the name
+    [] ev.k = "nchain" -> <<"parent-chain", "name", Len(RefNameChain(tab, <<ev.l, ev.c>>, ev.own)),
+                            (LET sh == ChainShape(tab, Traces[tid][1].lams, Traces[tid][1].comps, <<ev.l, ev.c>>, ev.got)
+                             IN IF sh = "unusable" THEN "UN" ELSE IF sh = "lambda-in-class" THEN "LC"
+                                ELSE IF sh = "anon-in-header" THEN "AH" ELSE "OT"),
+                            CompDepth(Traces[tid][1].comps, <<ev.l, ev.c>>),
+                            LamDepth(Traces[tid][1].lams, <<ev.l, ev.c>>)>>
+    [] ev.k = "achain" -> <<"ast-chain", "name">>
     [] ev.k = "full" -> <<"full-name", (IF ev.got = <<>> THEN "none" ELSE "wrong"), Len(RefFull(tab, mod[1], ev.row))>>
     [] OTHER -> <<"unknown-event">>
 
